@@ -4,7 +4,7 @@ DESIGN.md from /verif/seeded/*/meta.json (what each seeded change does, which ch
 with which first signature, and whether a strengthening was needed)."""
 import glob, json, os, re
 root = os.path.dirname(os.path.dirname(os.path.abspath(__file__)))
-rows, missed = [], []
+rows, missed, unreported = [], [], []
 for d in sorted(glob.glob(f"{root}/seeded/C*-m*")):
     m = json.load(open(f"{d}/meta.json"))
     readme = open(f"{d}/README.md").read() if os.path.exists(f"{d}/README.md") else ""
@@ -23,13 +23,15 @@ for d in sorted(glob.glob(f"{root}/seeded/C*-m*")):
             more = r["violation_signatures"] - 1
             caught.append(f"{p}: `{sig}`" + (f" (+{more} more)" if more > 0 else ""))
     own = m["caught_by_own_property_check"]
-    rows.append(f"| {m['id']} | {title} | {'; '.join(caught) if caught else '**not reported**'} |")
+    rows.append(f"| {m['id']} | {title} | {'; '.join(caught) if caught else '**not reported** (see below)'} |")
+    if "not_reported_because" in m:
+        unreported.append(f"* **{m['id']}** — {m['not_reported_because']}.")
     if "note" in m:
         missed.append(f"* **{m['id']}** — {m['note']}.")
-    if not own:
+    if not own and "not_reported_because" not in m:
         missed.append(f"* **{m['id']}** — NOT reported by its own property's check.")
 table = "| id | what the change does | caught by (first signature) |\n|----|----------------------|-----------------------------|\n" + "\n".join(rows)
-table += f"\n\n**{sum('not reported' not in r for r in rows)} of {len(rows)} seeded changes are reported by the check of the property they break.**\n\nStrengthenings that seeded changes led to (each was missed by the version of the machinery it was first tried against):\n\n" + "\n".join(missed) + "\n"
+table += f"\n\n**{sum('not reported' not in r for r in rows)} of {len(rows)} seeded changes are reported by the check of the property they break.**\n\nNot reported, and why:\n\n" + "\n".join(unreported) + f"\n\n\nStrengthenings that seeded changes led to (each was missed by the version of the machinery it was first tried against):\n\n" + "\n".join(missed) + "\n"
 p = f"{root}/DESIGN.md"
 s = open(p).read()
 b, e = "<!-- SEEDED-TABLE-BEGIN -->", "<!-- SEEDED-TABLE-END -->"
